@@ -140,6 +140,11 @@ def gen_params(rng, fn, data):
     if fn == "attenuated_signal_test":
         return p_atten_full(rng)
     p = gen(rng)
+    if fn == "valid_range_test" and data["inp"]["carrier"] != "dt64_nat" and data["inp"]["values"] and rng.chance(0.3):
+        # a reading a hair (less than a nanosecond's worth) away from a bound: still strictly on one side of it
+        a, b = p["valid_span"]
+        i = rng.randrange(len(data["inp"]["values"]))
+        data["inp"]["values"][i] = rng.pick((a - 4e-10, a + 4e-10, b - 4e-10, b + 4e-10))
     if fn == "valid_range_test" and data["inp"]["carrier"] == "dt64_nat":
         ts = sorted(t for t in data["inp"]["values"] if t is not None) or [0, 10]
         a, b = ts[0] + rng.pick((-5, 0, 5)), ts[-1] + rng.pick((-5, 0, 5))
